@@ -191,6 +191,9 @@ def _run(stmts, env, fuel):
                     break
                 except _Continue:
                     continue
+        elif isinstance(st, ast.Assert):
+            if not evaluate(st.test, env):
+                raise NoEval("assertion fails: " + src(st.test)[:40])
         elif isinstance(st, ast.Break):
             raise _Break()
         elif isinstance(st, ast.Continue):
